@@ -181,7 +181,8 @@ def cases(draw):
         tfmt = [draw(st.sampled_from(["C", "U"])) for _ in range(d)]
     return {"tree": tree, "route": draw(gen.routes), "fspec": fspec, "tfmt": tfmt,
             "sel": [draw(st.integers(0, 10000)) for _ in range(3)],
-            "split": draw(st.one_of(st.none(), st.tuples(st.integers(0, 3), st.integers(0, 5))))}
+            "split": draw(st.one_of(st.none(), st.tuples(st.integers(0, 3), st.integers(0, 5)))),
+            "mutate": draw(st.one_of(st.none(), st.none(), st.tuples(st.integers(0, 5), st.integers(0, 5), st.integers(0, 1))))}
 
 
 def _small_trees(shape, leaf_opts):
@@ -237,6 +238,23 @@ def check(case, rec):
     if case["tfmt"]:
         for r, f in zip(rank_ids, case["tfmt"]):
             t.setFormat(r, f)
+
+    # optionally clear / re-assign a fiber first: the footprints must describe the live tree, not fibers that
+    # are no longer part of it
+    mu = case.get("mutate")
+    if mu and d >= 2 and t.getRoot().payloads:
+        f = t.getRoot().payloads[mu[0] % len(t.getRoot().payloads)]
+        if d == 3 and f.payloads and mu[1] % 2:
+            f = f.payloads[mu[1] % len(f.payloads)]
+        if mu[2] % 2:
+            f.clear()
+        else:
+            sib = t.getRoot().payloads[(mu[0] + 1) % len(t.getRoot().payloads)]
+            if sib is not f and f.getOwner() is sib.getOwner():
+                f <<= sib
+            else:
+                f.clear()
+        rec.cls("mutated-before-query")
 
     # optionally query a split tensor: its lower fibers carry explicit active ranges smaller than the
     # shape, which must not matter ("through every coordinate of the shape of an uncompressed rank")
